@@ -35,12 +35,24 @@ func method(recv *Atom, f string, args ...*Expr) *Expr {
 func fn(f string, args ...*Expr) *Atom { return &Atom{Kind: "func", F: f, Args: args} }
 
 // the nested object is reached through the pointer field In or through the interface-typed field Any
-func (g *gen) inner() string {
-	if g.p.chance(1, 3) {
+// or as an element of the slice of struct pointers Items (constant or computed index: F.Items[0].X and F.Items[F.U % 2].X)
+func (g *gen) inner() *Var {
+	switch g.p.intn(6) {
+	case 0, 1:
 		g.ops["path.through-interface-field"]++
-		return "Any"
+		return vPath("F", "Any")
+	case 2:
+		g.ops["path.struct-in-slice"]++
+		return vSel(vPath("F", "Items"), cInt(int64(g.p.intn(2))))
+	case 3:
+		g.ops["path.struct-in-slice"]++
+		if g.p.chance(1, 2) {
+			g.ops["path.struct-in-slice.computed-index"]++
+			return vSel(vPath("F", "Items"), mkBin("%", eVar(vPath("F", pick(g.p, []string{"U", "U8", "I64"}))), cInt(2)))
+		}
+		return vSel(vPath("F", "Items"), cInt(0))
 	}
-	return "In"
+	return vPath("F", "In")
 }
 
 var intFields = []string{"I", "I8", "I16", "I32", "I64", "U", "U8", "U16", "U32", "U64"}
@@ -51,7 +63,7 @@ func (g *gen) intVar() *Var {
 	case 0, 1, 2:
 		return vPath("F", pick(g.p, intFields))
 	case 3:
-		return vPath("F", g.inner(), "X")
+		return vMember(g.inner(), "X")
 	case 4:
 		return vSel(vPath("F", "Arr"), cInt(int64(g.p.intn(3))))
 	case 5:
@@ -68,7 +80,7 @@ func (g *gen) floatVar() *Var {
 	case 0:
 		return vPath("F", "F32")
 	case 1:
-		return vPath("F", g.inner(), "Y")
+		return vMember(g.inner(), "Y")
 	case 2:
 		return vSel(vPath("F", "FArr"), cInt(int64(g.p.intn(3))))
 	default:
@@ -79,7 +91,7 @@ func (g *gen) floatVar() *Var {
 func (g *gen) strVar() *Var {
 	switch g.p.intn(5) {
 	case 0:
-		return vPath("F", g.inner(), "S")
+		return vMember(g.inner(), "S")
 	case 1:
 		return vSel(vPath("F", "SArr"), cInt(int64(g.p.intn(3))))
 	case 2:
@@ -215,7 +227,7 @@ func (g *gen) boolExpr(depth int) *Expr {
 		return eParen(true, g.boolExpr(depth-1))
 	case 3:
 		g.ops["!atom"]++
-		return eAtom(&Atom{Kind: "neg", A: aVar(pick(g.p, []*Var{vPath("F", "B"), vPath("F", g.inner(), "B")}))})
+		return eAtom(&Atom{Kind: "neg", A: aVar(pick(g.p, []*Var{vPath("F", "B"), vMember(g.inner(), "B")}))})
 	default:
 		return g.cmp()
 	}
@@ -259,7 +271,7 @@ func (g *gen) cmp() *Expr {
 		case 2:
 			return mkBin("<", method(aVar(vName("F")), "GetI64"), cInt(int64(1+g.p.intn(4))))
 		default:
-			return eVar(pick(g.p, []*Var{vPath("F", "B"), vPath("F", g.inner(), "B")}))
+			return eVar(pick(g.p, []*Var{vPath("F", "B"), vMember(g.inner(), "B")}))
 		}
 	case 10:
 		return mkBin(pick(g.p, []string{"<", ">", "==", "<=", ">=", "!="}), eVar(vPath("F", "T")), eVar(vPath("F", "T")))
@@ -324,7 +336,7 @@ func (g *gen) action() []*Stmt {
 		x := g.strVar()
 		return []*Stmt{assign(x, "=", mkBin("+", eVar(x), cStr("x")))}
 	case 7:
-		return []*Stmt{assign(pick(g.p, []*Var{vPath("F", "B"), vPath("F", g.inner(), "B")}), "=", g.boolExpr(0))}
+		return []*Stmt{assign(pick(g.p, []*Var{vPath("F", "B"), vMember(g.inner(), "B")}), "=", g.boolExpr(0))}
 	case 8:
 		// a mutating method announced with Forget / Changed
 		return []*Stmt{call(&Atom{Kind: "method", A: aVar(vName("F")), F: "AddTo", Args: []*Expr{cInt(int64(1 + g.p.intn(2)))}}),
